@@ -53,6 +53,34 @@ func checkLastSeenAdopted(c *Ctx, lc *LockCtx) {
 			}
 			n++
 			c.Analysed(f)
+			// a continuation that only hands its arguments on to a method (return h.resolve(packet, P)):
+			// the method is the continuation, with the parameter that receives P
+			for hop := 0; hop < 2; hop++ {
+				var next *ssa.Function
+				var nextP *ssa.Parameter
+				cnt := 0
+				eachInstr(f, func(in ssa.Instruction) {
+					cc := callOf(in)
+					if cc == nil {
+						return
+					}
+					g := moduleHelperWithBody(cc)
+					if g == nil {
+						return
+					}
+					for i, a := range cc.Args {
+						if stripNoSubst(a) == ssa.Value(P) && i < len(g.Params) {
+							next, nextP = g, g.Params[i]
+							cnt++
+						}
+					}
+				})
+				if next == nil || cnt != 1 || len(f.Blocks) > 3 {
+					break
+				}
+				f, P = next, nextP
+				c.Analysed(f)
+			}
 			isP := func(v ssa.Value) bool { return strip(v) == ssa.Value(P) }
 			stop := func(in ssa.Instruction) bool {
 				st, ok := in.(*ssa.Store)
